@@ -104,7 +104,7 @@ mod verif_kani {
         core::mem::forget(g);
     }
 
-    //@harness props=C02,C12 kind=bounded fns=DenseLuaGenerator::push_str,DenseLuaGenerator::push_space_if_needed,DenseLuaGenerator::needs_space,DenseLuaGenerator::raw_push_str bound="previous output: exactly 2 bytes over ALL printable ASCII and newline; pushed token: <= 2 bytes over all printable non-blank ASCII; column_span, current_line_length, last_push_length: every usize value allowed by wf" budget=300
+    //@harness props=C02,C12 kind=bounded fns=DenseLuaGenerator::push_str,DenseLuaGenerator::push_space_if_needed,DenseLuaGenerator::needs_space,DenseLuaGenerator::raw_push_str bound="previous output: exactly 2 bytes over ALL printable ASCII and newline; pushed token: <= 2 bytes over all printable non-blank ASCII; column_span, current_line_length, last_push_length: every usize value allowed by wf" budget=400
     //@ desc="push_str(c): requires wf; ensures wf, output' == output ++ blanks ++ c, blanks non-empty whenever last(output),first(c) fuse (O-lex), for EVERY column span"
     #[kani::proof]
     #[kani::unwind(6)]
@@ -120,7 +120,7 @@ mod verif_kani {
         check_push_str::<5>();
     }
 
-    //@harness props=C02,C12 kind=bounded fns=DenseLuaGenerator::push_str bound="previous output empty; pushed token <= 2 bytes; column_span symbolic" budget=300
+    //@harness props=C02,C12 kind=bounded fns=DenseLuaGenerator::push_str bound="previous output empty; pushed token <= 2 bytes; column_span symbolic" budget=400
     //@ desc="push_str(c) on an empty generator: output' == blanks ++ c; wf"
     #[kani::proof]
     #[kani::unwind(6)]
@@ -128,7 +128,7 @@ mod verif_kani {
         check_push_str::<0>();
     }
 
-    //@harness props=C02,C12 kind=bounded fns=DenseLuaGenerator::push_char,DenseLuaGenerator::push_space_if_needed bound="previous output: exactly 2 bytes over ALL printable ASCII and newline; pushed char: any printable non-blank ASCII; column_span etc. symbolic" budget=300
+    //@harness props=C02,C12 kind=bounded fns=DenseLuaGenerator::push_char,DenseLuaGenerator::push_space_if_needed bound="previous output: exactly 2 bytes over ALL printable ASCII and newline; pushed char: any printable non-blank ASCII; column_span etc. symbolic" budget=400
     //@ desc="push_char(ch): requires wf; ensures wf, output' == output ++ blanks ++ ch, blanks non-empty whenever last(output),ch fuse (O-lex)"
     #[kani::proof]
     #[kani::unwind(6)]
@@ -188,7 +188,7 @@ mod verif_kani {
         core::mem::forget(g);
     }
 
-    //@harness props=C02,C12 kind=bounded fns=DenseLuaGenerator::push_str_and_break_if,DenseLuaGenerator::get_last_push_str bound="previous output: exactly 2 bytes; pushed token 1..2 bytes; predicate = symbolic-but-fixed boolean that also checks its argument; column_span etc. symbolic" budget=300
+    //@harness props=C02,C12 kind=bounded fns=DenseLuaGenerator::push_str_and_break_if,DenseLuaGenerator::get_last_push_str bound="previous output: exactly 2 bytes; pushed token 1..2 bytes; predicate = symbolic-but-fixed boolean that also checks its argument; column_span etc. symbolic" budget=400
     //@ desc="push_str_and_break_if(c, p): p is evaluated on exactly the last pushed text; output' == output ++ blanks ++ c; blanks non-empty whenever p says break; wf"
     #[kani::proof]
     #[kani::unwind(6)]
@@ -196,7 +196,7 @@ mod verif_kani {
         check_break_if(false);
     }
 
-    //@harness props=C02,C12 kind=bounded fns=DenseLuaGenerator::push_char_and_break_if,DenseLuaGenerator::get_last_push_str bound="previous output: exactly 2 bytes; pushed char: any printable non-blank ASCII; predicate symbolic; column_span etc. symbolic" budget=300
+    //@harness props=C02,C12 kind=bounded fns=DenseLuaGenerator::push_char_and_break_if,DenseLuaGenerator::get_last_push_str bound="previous output: exactly 2 bytes; pushed char: any printable non-blank ASCII; predicate symbolic; column_span etc. symbolic" budget=400
     //@ desc="push_char_and_break_if(ch, p): p is evaluated on exactly the last pushed text; output' == output ++ blanks ++ ch; blanks non-empty whenever p says break; wf"
     #[kani::proof]
     #[kani::unwind(6)]
@@ -252,7 +252,7 @@ mod verif_kani {
         core::mem::forget(g);
     }
 
-    //@harness props=C02,C12 kind=bounded fns=DenseLuaGenerator::merge_char,DenseLuaGenerator::get_last_push_str bound="previous output = f with the last 1 byte(s) as last push; column_span and current_line_length: every usize value allowed by wf" budget=300
+    //@harness props=C02,C12 kind=bounded fns=DenseLuaGenerator::merge_char,DenseLuaGenerator::get_last_push_str bound="previous output = f with the last 1 byte(s) as last push; column_span and current_line_length: every usize value allowed by wf" budget=400
     //@ desc="merge_char('('): the non-blank text becomes old non-blank text ++ '(' (nothing lost, nothing duplicated) and '(' directly follows a non-blank character (a call's `(` is never separated from its prefix by a space or a line break), for EVERY column span (line full or not); wf"
     #[kani::proof]
     #[kani::unwind(9)]
@@ -260,7 +260,7 @@ mod verif_kani {
         check_merge_char("f", 1);
     }
 
-    //@harness props=C02,C12 kind=bounded fns=DenseLuaGenerator::merge_char,DenseLuaGenerator::get_last_push_str bound="previous output = a f with the last 1 byte(s) as last push; column_span and current_line_length: every usize value allowed by wf" budget=300
+    //@harness props=C02,C12 kind=bounded fns=DenseLuaGenerator::merge_char,DenseLuaGenerator::get_last_push_str bound="previous output = a f with the last 1 byte(s) as last push; column_span and current_line_length: every usize value allowed by wf" budget=400
     //@ desc="merge_char('('): the non-blank text becomes old non-blank text ++ '(' (nothing lost, nothing duplicated) and '(' directly follows a non-blank character (a call's `(` is never separated from its prefix by a space or a line break), for EVERY column span (line full or not); wf"
     #[kani::proof]
     #[kani::unwind(9)]
@@ -268,7 +268,7 @@ mod verif_kani {
         check_merge_char("a f", 1);
     }
 
-    //@harness props=C02,C12 kind=bounded fns=DenseLuaGenerator::merge_char,DenseLuaGenerator::get_last_push_str bound="previous output = a  fg with the last 2 byte(s) as last push; column_span and current_line_length: every usize value allowed by wf" budget=300
+    //@harness props=C02,C12 kind=bounded fns=DenseLuaGenerator::merge_char,DenseLuaGenerator::get_last_push_str bound="previous output = a  fg with the last 2 byte(s) as last push; column_span and current_line_length: every usize value allowed by wf" budget=400
     //@ desc="merge_char('('): the non-blank text becomes old non-blank text ++ '(' (nothing lost, nothing duplicated) and '(' directly follows a non-blank character (a call's `(` is never separated from its prefix by a space or a line break), for EVERY column span (line full or not); wf"
     #[kani::proof]
     #[kani::unwind(9)]
@@ -276,7 +276,7 @@ mod verif_kani {
         check_merge_char("a  fg", 2);
     }
 
-    //@harness props=C02,C12 kind=bounded fns=DenseLuaGenerator::merge_char,DenseLuaGenerator::get_last_push_str bound="previous output = x\\\\nfg with the last 2 byte(s) as last push; column_span and current_line_length: every usize value allowed by wf" budget=300
+    //@harness props=C02,C12 kind=bounded fns=DenseLuaGenerator::merge_char,DenseLuaGenerator::get_last_push_str bound="previous output = x\\\\nfg with the last 2 byte(s) as last push; column_span and current_line_length: every usize value allowed by wf" budget=400
     //@ desc="merge_char('('): the non-blank text becomes old non-blank text ++ '(' (nothing lost, nothing duplicated) and '(' directly follows a non-blank character (a call's `(` is never separated from its prefix by a space or a line break), for EVERY column span (line full or not); wf"
     #[kani::proof]
     #[kani::unwind(9)]
@@ -284,7 +284,7 @@ mod verif_kani {
         check_merge_char("x\nfg", 2);
     }
 
-    //@harness props=C02,C12 kind=bounded fns=DenseLuaGenerator::merge_char,DenseLuaGenerator::get_last_push_str bound="previous output = a.b with the last 1 byte(s) as last push; column_span and current_line_length: every usize value allowed by wf" budget=300
+    //@harness props=C02,C12 kind=bounded fns=DenseLuaGenerator::merge_char,DenseLuaGenerator::get_last_push_str bound="previous output = a.b with the last 1 byte(s) as last push; column_span and current_line_length: every usize value allowed by wf" budget=400
     //@ desc="merge_char('('): the non-blank text becomes old non-blank text ++ '(' (nothing lost, nothing duplicated) and '(' directly follows a non-blank character (a call's `(` is never separated from its prefix by a space or a line break), for EVERY column span (line full or not); wf"
     #[kani::proof]
     #[kani::unwind(9)]
@@ -292,7 +292,7 @@ mod verif_kani {
         check_merge_char("a.b", 1);
     }
 
-    //@harness props=C02,C12 kind=bounded fns=DenseLuaGenerator::merge_char,DenseLuaGenerator::get_last_push_str bound="previous output = ab with the last 2 byte(s) as last push; column_span and current_line_length: every usize value allowed by wf" budget=300
+    //@harness props=C02,C12 kind=bounded fns=DenseLuaGenerator::merge_char,DenseLuaGenerator::get_last_push_str bound="previous output = ab with the last 2 byte(s) as last push; column_span and current_line_length: every usize value allowed by wf" budget=400
     //@ desc="merge_char('('): the non-blank text becomes old non-blank text ++ '(' (nothing lost, nothing duplicated) and '(' directly follows a non-blank character (a call's `(` is never separated from its prefix by a space or a line break), for EVERY column span (line full or not); wf"
     #[kani::proof]
     #[kani::unwind(9)]
@@ -300,7 +300,7 @@ mod verif_kani {
         check_merge_char("ab", 2);
     }
 
-    //@harness props=C02,C12 kind=bounded fns=DenseLuaGenerator::push_new_line_if_needed bound="previous output: exactly 2 bytes; pushed_length <= 2^32; column_span etc. symbolic" budget=300
+    //@harness props=C02,C12 kind=bounded fns=DenseLuaGenerator::push_new_line_if_needed bound="previous output: exactly 2 bytes; pushed_length <= 2^32; column_span etc. symbolic" budget=400
     //@ desc="push_new_line_if_needed(n): output' == output or output ++ \"\\n\"; wf"
     #[kani::proof]
     #[kani::unwind(6)]
